@@ -436,10 +436,10 @@ Definition do_step (d : db) : db * N :=
               end
           end
       | WCompact id =>
-          match ks_of d0 id with
-          | Some ks => if k_deleted ks then (d0, 3) else (do_compact d0 id false, 3)
-          | None => (d0, 3)
-          end
+          (* strategy-driven compaction: with the few tables model programs create, the leveled / FIFO
+             strategies only move tables between levels (no rewrite, hence no GC and no filter);
+             real merges are requested explicitly through [major] *)
+          (d0, 3)
       end
   end.
 
